@@ -1,0 +1,11 @@
+//go:build !verif
+
+// Package verifhook is a tracing hook for external verification harnesses. Without
+// the "verif" build tag Emit is an empty function that the compiler removes.
+package verifhook
+
+// Emit does nothing unless built with -tags verif.
+func Emit(ev string, kv ...interface{}) {}
+
+// Enabled reports whether hooks are compiled in.
+const Enabled = false
